@@ -160,6 +160,9 @@ func checkC19(c *Ctx, r *Report) {
 		r.add("C19.b", "fieldflow", "pipeline.getControllers:from-graph", "the controllers of a pass are the graph's controller nodes, not an accumulating visitor list", []string{"(*core/pipeline.GleecePipeline).getControllers"}, sites, viol)
 	}
 
+	// validation and reduction read the session's metadata, they never reorder it in place
+	ruleSortInventory(c, r, "C19.b", "core/validators", "core/metadata", "core/pipeline", "core/visitors", "graphs")
+
 	// ---- C19.c an `already cached` error never fails a repeated visit
 	checkCacheAddErrors(c, r)
 
